@@ -319,8 +319,10 @@ func runC14(r *core.Run) {
 		p := plan{c: c, allowCheck: s.Flip("allowcheck", 0.4)}
 		plans = append(plans, p)
 		r.Event("connect", "conn%d %s(v%d accepts %v) -> %s(v%d accepts %v reqAuth=%v node=%v) allowCheck=%v", i, c.out.name, c.out.version, c.out.accept, c.in.name, c.in.version, c.in.accept, c.in.reqAuth, c.in.isNode, p.allowCheck)
+		// (deadlines differ by a millisecond per side: goroutines woken by timers of one fake instant would run
+		// in parallel, outside the scheduler's order)
 		sch.Go(fmt.Sprintf("dial%d", i), func() {
-			ctx, cancel := context.WithTimeout(context.Background(), deadline)
+			ctx, cancel := context.WithTimeout(context.Background(), deadline+time.Duration(2*c.n)*time.Millisecond)
 			defer cancel()
 			if p.allowCheck {
 				ctx = secureservice.CtxAllowAccountCheck(ctx)
@@ -330,7 +332,7 @@ func runC14(r *core.Run) {
 			r.Event("result", "conn%d dialer %s: %v", c.n, c.out.name, errStr(err))
 		})
 		sch.Go(fmt.Sprintf("listen%d", i), func() {
-			ctx, cancel := context.WithTimeout(context.Background(), deadline)
+			ctx, cancel := context.WithTimeout(context.Background(), deadline+time.Duration(2*c.n+1)*time.Millisecond)
 			defer cancel()
 			cctx, err := c.in.svc.HandshakeInbound(ctx, &hsSide{c: c, isOut: false}, c.out.keys.PeerId)
 			c.resIn = &hsResult{err: err, ctx: cctx, at: time.Since(start)}
